@@ -16,7 +16,7 @@ pub enum Kind {
 #[derive(Clone, Debug, Serialize, Deserialize, PartialEq, Eq, Hash)]
 pub enum Ctl {
     Custom { n: u8 },
-    Multi { planned: u8 },
+    Multi { planned: u32 },
 }
 
 impl Ctl {
@@ -690,7 +690,7 @@ fn gen_builder(
             // pick 0 -> dispatch once (the simplest interesting case), highest pick -> 0 times
             let times = ((1 + src.pick(cfg.max_n + 1)) % (cfg.max_n + 1)) as u8;
             let ctl = if cfg.allow_multi && src.chance(4, 16) {
-                Ctl::Multi { planned: times }
+                Ctl::Multi { planned: times as u32 }
             } else {
                 Ctl::Custom { n: times }
             };
